@@ -40,6 +40,15 @@ int main() {
     CHECK(r && *r == 12112 && c.log == want && c.seen_at == &c, "move-only lvalue context"); }
   { auto p = make_const<ctx>(); ctx c; auto r = p.context_parse(std::move(c), string_buffer(in));   // rvalue: still the caller's object, never moved from by the library
     CHECK(r && *r == 12112 && c.log == want && c.seen_at == &c && c.same_address, "rvalue context: functors must see the caller's object every time"); }
+  { // an rvalue context seen through 'auto&&': the functor gets the caller's object, non-const, and may update it
+    auto p = parser(list, terms('a', 'b', ','), nterms(list, item), rules(
+      list(item) >>= [](auto&& c, int x) { c.touch(0); return x; },
+      list(list, ',', item) >= [](int l, skip, int x) { return l * 10 + x; },
+      item('a') >>= [](auto&& c, skip) { static_assert(!std::is_const_v<std::remove_reference_t<decltype(c)>>, "the context of an rvalue call is not const"); c.touch(2); return c.mutations; },
+      item('b') >= [](skip) { return 2; }));
+    moctx c; auto r = p.context_parse(std::move(c), string_buffer("a,b,a,a"));
+    CHECK(r && *r == 1234 - 1234 + (1 * 1000 + 2 * 100 + 3 * 10 + 4), "rvalue context through auto&&: updates must be carried from one reduction to the next, got " << (r ? *r : -1));
+    CHECK(c.log == std::vector<int>({2, 0, 2, 2}) && c.seen_at == &c && c.same_address, "rvalue context through auto&&: identity / order"); }
   { // a grammar that ignores the context: parse and context_parse agree, contextual functors absent
     auto p = parser(list, terms('a', 'b', ','), nterms(list, item), rules(list(item), list(list, ',', item) >= [](int l, skip, int x) { return l * 10 + x; }, item('a') >= [](skip) { return 1; }, item('b') >= [](skip) { return 2; }));
     ctx c; for (const char* s : {"a,b,a", "b", "a,,b", ""}) { auto r1 = p.parse(string_buffer(s)); auto r2 = p.context_parse(c, string_buffer(s)); CHECK(r1 == r2, "parse != context_parse on '" << s << "'"); }
